@@ -506,9 +506,10 @@ fn fold_constraint_set(
 ) -> Result<Option<SubtypeElements>, GrammarError> {
     // X.680 clause 50: EXCEPT binds tighter than INTERSECTION, which binds tighter than UNION.
     // The lexer nests a chain `a op1 b op2 c` to the right, as `a op1 (b op2 c)`,
-    // so an operator that binds tighter than its successor has to be folded first.
+    // so an operator that binds at least as tightly as its successor has to be folded first
+    // (`a ^ b ^ c | d` is `((a ^ b) ^ c) | d`, not `a ^ ((b ^ c) | d)`).
     if let ElementOrSetOperation::SetOperation(next) = &*set.operant {
-        if precedence(&set.operator) > precedence(&next.operator) {
+        if precedence(&set.operator) >= precedence(&next.operator) {
             let left = fold_constraint_set(
                 &SetOperation {
                     base: set.base.clone(),
